@@ -22,10 +22,16 @@
 (*   FmIsDensity / Sandwich: fm = last / d1 / .. / dn, then * prod(d) exactly: relative  *)
 (*     error <= n * 2^-53 < 10^-12; tolerance 2 units + value / 10^12.                    *)
 (*   CellProbIsCdfDifference: the code evaluates F at x -+ 0.5 * (x[1] - x[0]) and the    *)
-(*     reference at x -+ d/2; both round F to 2^-53 near 1, so each factor differs by up  *)
-(*     to a few 10^-16 absolutely (measured <= 7 * 10^-17) and the argument shift adds a  *)
-(*     relative 10^-13; tolerance 2000 units + Pref / 10^9.  A wrong cell width or a      *)
-(*     transposed axis changes cells by factors, not by 10^-9.                            *)
+(*     reference at x -+ d/2: arguments that differ by about one ulp of x.  For F near 1  *)
+(*     each value carries the rounding 2^-53 and, for scipy's von Mises cdf (series /     *)
+(*     normal approximation), an implementation jitter that was measured at 2.2 * 10^-15  *)
+(*     for a one-ulp change of the argument (first setting of this tolerance, 2 * 10^-15, *)
+(*     rejected a correct tail cell of probability 1.9 * 10^-8 by 0.2 * 10^-15 - the      *)
+(*     clause was over-strict, not the code wrong); the legitimate change pdf * ulp(x) is *)
+(*     relative 10^-13 of the cell.  A factor is a difference of two such values, the     *)
+(*     other factors are <= 1 (a few units for von Mises axes spanning several periods):  *)
+(*     absolute tolerance 50 000 units (5 * 10^-14) + Pref / 10^9.  A wrong cell width, a *)
+(*     transposed axis or a shifted grid changes cells by factors, not by 10^-9.          *)
 EXTENDS HDCOps, Json, IOUtils
 
 TraceLog == ndJsonDeserialize(IOEnv.TRACE_FILE)
@@ -47,7 +53,7 @@ Judge(r) ==
       slack  == Slack(r)
       tot    == L2SumWhere(r.Ph, r.Pl, LAMBDA c : TRUE)
       cdfok  == AllWhere(r.Ph, LAMBDA c :
-                   L2Le(L2AbsDiff(Pc(r, c), Fc(r, c)), L2Add(<<0, 2000>>, L2Div9(Fc(r, c)))))
+                   L2Le(L2AbsDiff(Pc(r, c), Fc(r, c)), L2Add(<<0, 50000>>, L2Div9(Fc(r, c)))))
       limok  == L2Le(L2AbsDiff(r.limq, lim), <<0, 250>>)
       (* warned <=> Total < L, either verdict accepted inside the slack band *)
       warnok == /\ (r.warned => L2Lt(tot, L2Add(lim, slack)))
